@@ -1782,6 +1782,11 @@ class RepeatingEngine(Engine):
 
                 # VV: Find out whether producers have finished, then record launch-time
                 producers_done_when_i_started = self._producers_are_finished
+
+                if checkProducerOutput and producers_done_when_i_started and not isNewOutput:
+                    # VV: The producers may have produced their last output and finished *after* the check above.
+                    #     This attempt counts against repeatRetries, look again so that the last output is not missed.
+                    isNewOutput = self.job.producersHaveOutputSinceDate(self.lastLaunched)
                 launch_time = datetime.datetime.now()
                 self._stateDict['lastKernelLaunchDate'] = launch_time
 
